@@ -8,6 +8,100 @@ open MitmVerif MitmVerif.C14
 
 variable {K : Codec}
 
+/-! ### field projections of the small state updates -/
+
+@[simp] theorem addRouted_side (s : St K) (e : CEv) : (addRouted s e).side = s.side := rfl
+@[simp] theorem addRouted_st (s : St K) (e : CEv) : (addRouted s e).st = s.st := rfl
+@[simp] theorem addRouted_replyTo (s : St K) (e : CEv) : (addRouted s e).replyTo = s.replyTo := rfl
+@[simp] theorem addRouted_queue (s : St K) (e : CEv) : (addRouted s e).queue = s.queue := rfl
+@[simp] theorem addRouted_tls (s : St K) (e : CEv) : (addRouted s e).tls = s.tls := rfl
+@[simp] theorem addRouted_helloParsed (s : St K) (e : CEv) : (addRouted s e).helloParsed = s.helloParsed := rfl
+@[simp] theorem addRouted_recvBuf (s : St K) (e : CEv) : (addRouted s e).recvBuf = s.recvBuf := rfl
+@[simp] theorem addRouted_errored (s : St K) (e : CEv) : (addRouted s e).errored = s.errored := rfl
+@[simp] theorem addRouted_crashed (s : St K) (e : CEv) : (addRouted s e).crashed = s.crashed := rfl
+@[simp] theorem addRouted_toChild (s : St K) (e : CEv) : (addRouted s e).toChild = s.toChild := rfl
+@[simp] theorem addRouted_routed (s : St K) (e : CEv) : (addRouted s e).routed = s.routed ++ [e] := rfl
+@[simp] theorem addRouted_up (s : St K) (e : CEv) : (addRouted s e).up = s.up := rfl
+@[simp] theorem addRouted_inbound (s : St K) (e : CEv) : (addRouted s e).inbound = s.inbound := rfl
+@[simp] theorem addRouted_accepted (s : St K) (e : CEv) : (addRouted s e).accepted = s.accepted := rfl
+@[simp] theorem addRouted_rxError (s : St K) (e : CEv) : (addRouted s e).rxError = s.rxError := rfl
+@[simp] theorem enqueue_side (s : St K) (e : CEv) : (enqueue s e).side = s.side := rfl
+@[simp] theorem enqueue_st (s : St K) (e : CEv) : (enqueue s e).st = s.st := rfl
+@[simp] theorem enqueue_replyTo (s : St K) (e : CEv) : (enqueue s e).replyTo = s.replyTo := rfl
+@[simp] theorem enqueue_queue (s : St K) (e : CEv) : (enqueue s e).queue = s.queue ++ [e] := rfl
+@[simp] theorem enqueue_tls (s : St K) (e : CEv) : (enqueue s e).tls = s.tls := rfl
+@[simp] theorem enqueue_helloParsed (s : St K) (e : CEv) : (enqueue s e).helloParsed = s.helloParsed := rfl
+@[simp] theorem enqueue_recvBuf (s : St K) (e : CEv) : (enqueue s e).recvBuf = s.recvBuf := rfl
+@[simp] theorem enqueue_errored (s : St K) (e : CEv) : (enqueue s e).errored = s.errored := rfl
+@[simp] theorem enqueue_crashed (s : St K) (e : CEv) : (enqueue s e).crashed = s.crashed := rfl
+@[simp] theorem enqueue_toChild (s : St K) (e : CEv) : (enqueue s e).toChild = s.toChild := rfl
+@[simp] theorem enqueue_routed (s : St K) (e : CEv) : (enqueue s e).routed = s.routed := rfl
+@[simp] theorem enqueue_up (s : St K) (e : CEv) : (enqueue s e).up = s.up := rfl
+@[simp] theorem enqueue_inbound (s : St K) (e : CEv) : (enqueue s e).inbound = s.inbound := rfl
+@[simp] theorem enqueue_accepted (s : St K) (e : CEv) : (enqueue s e).accepted = s.accepted := rfl
+@[simp] theorem enqueue_rxError (s : St K) (e : CEv) : (enqueue s e).rxError = s.rxError := rfl
+@[simp] theorem setSt_side (s : St K) (v : TState) : (setSt s v).side = s.side := rfl
+@[simp] theorem setSt_st (s : St K) (v : TState) : (setSt s v).st = v := rfl
+@[simp] theorem setSt_replyTo (s : St K) (v : TState) : (setSt s v).replyTo = s.replyTo := rfl
+@[simp] theorem setSt_queue (s : St K) (v : TState) : (setSt s v).queue = s.queue := rfl
+@[simp] theorem setSt_tls (s : St K) (v : TState) : (setSt s v).tls = s.tls := rfl
+@[simp] theorem setSt_helloParsed (s : St K) (v : TState) : (setSt s v).helloParsed = s.helloParsed := rfl
+@[simp] theorem setSt_recvBuf (s : St K) (v : TState) : (setSt s v).recvBuf = s.recvBuf := rfl
+@[simp] theorem setSt_errored (s : St K) (v : TState) : (setSt s v).errored = s.errored := rfl
+@[simp] theorem setSt_crashed (s : St K) (v : TState) : (setSt s v).crashed = s.crashed := rfl
+@[simp] theorem setSt_toChild (s : St K) (v : TState) : (setSt s v).toChild = s.toChild := rfl
+@[simp] theorem setSt_routed (s : St K) (v : TState) : (setSt s v).routed = s.routed := rfl
+@[simp] theorem setSt_up (s : St K) (v : TState) : (setSt s v).up = s.up := rfl
+@[simp] theorem setSt_inbound (s : St K) (v : TState) : (setSt s v).inbound = s.inbound := rfl
+@[simp] theorem setSt_accepted (s : St K) (v : TState) : (setSt s v).accepted = s.accepted := rfl
+@[simp] theorem setSt_rxError (s : St K) (v : TState) : (setSt s v).rxError = s.rxError := rfl
+@[simp] theorem emit_side (s : St K) (u : List Up) : (emit s u).side = s.side := rfl
+@[simp] theorem emit_st (s : St K) (u : List Up) : (emit s u).st = s.st := rfl
+@[simp] theorem emit_replyTo (s : St K) (u : List Up) : (emit s u).replyTo = s.replyTo := rfl
+@[simp] theorem emit_queue (s : St K) (u : List Up) : (emit s u).queue = s.queue := rfl
+@[simp] theorem emit_tls (s : St K) (u : List Up) : (emit s u).tls = s.tls := rfl
+@[simp] theorem emit_helloParsed (s : St K) (u : List Up) : (emit s u).helloParsed = s.helloParsed := rfl
+@[simp] theorem emit_recvBuf (s : St K) (u : List Up) : (emit s u).recvBuf = s.recvBuf := rfl
+@[simp] theorem emit_errored (s : St K) (u : List Up) : (emit s u).errored = s.errored := rfl
+@[simp] theorem emit_crashed (s : St K) (u : List Up) : (emit s u).crashed = s.crashed := rfl
+@[simp] theorem emit_toChild (s : St K) (u : List Up) : (emit s u).toChild = s.toChild := rfl
+@[simp] theorem emit_routed (s : St K) (u : List Up) : (emit s u).routed = s.routed := rfl
+@[simp] theorem emit_up (s : St K) (u : List Up) : (emit s u).up = s.up ++ u := rfl
+@[simp] theorem emit_inbound (s : St K) (u : List Up) : (emit s u).inbound = s.inbound := rfl
+@[simp] theorem emit_accepted (s : St K) (u : List Up) : (emit s u).accepted = s.accepted := rfl
+@[simp] theorem emit_rxError (s : St K) (u : List Up) : (emit s u).rxError = s.rxError := rfl
+
+@[simp] theorem clearReply_side (s : St K) : (clearReply s).side = s.side := rfl
+@[simp] theorem clearReply_st (s : St K) : (clearReply s).st = s.st := rfl
+@[simp] theorem clearReply_replyTo (s : St K) : (clearReply s).replyTo = false := rfl
+@[simp] theorem clearReply_queue (s : St K) : (clearReply s).queue = s.queue := rfl
+@[simp] theorem clearReply_tls (s : St K) : (clearReply s).tls = s.tls := rfl
+@[simp] theorem clearReply_helloParsed (s : St K) : (clearReply s).helloParsed = s.helloParsed := rfl
+@[simp] theorem clearReply_recvBuf (s : St K) : (clearReply s).recvBuf = s.recvBuf := rfl
+@[simp] theorem clearReply_errored (s : St K) : (clearReply s).errored = s.errored := rfl
+@[simp] theorem clearReply_crashed (s : St K) : (clearReply s).crashed = s.crashed := rfl
+@[simp] theorem clearReply_toChild (s : St K) : (clearReply s).toChild = s.toChild := rfl
+@[simp] theorem clearReply_routed (s : St K) : (clearReply s).routed = s.routed := rfl
+@[simp] theorem clearReply_up (s : St K) : (clearReply s).up = s.up := rfl
+@[simp] theorem clearReply_inbound (s : St K) : (clearReply s).inbound = s.inbound := rfl
+@[simp] theorem clearReply_accepted (s : St K) : (clearReply s).accepted = s.accepted := rfl
+@[simp] theorem clearReply_rxError (s : St K) : (clearReply s).rxError = s.rxError := rfl
+@[simp] theorem clearQueue_side (s : St K) : (clearQueue s).side = s.side := rfl
+@[simp] theorem clearQueue_st (s : St K) : (clearQueue s).st = s.st := rfl
+@[simp] theorem clearQueue_replyTo (s : St K) : (clearQueue s).replyTo = s.replyTo := rfl
+@[simp] theorem clearQueue_queue (s : St K) : (clearQueue s).queue = [] := rfl
+@[simp] theorem clearQueue_tls (s : St K) : (clearQueue s).tls = s.tls := rfl
+@[simp] theorem clearQueue_helloParsed (s : St K) : (clearQueue s).helloParsed = s.helloParsed := rfl
+@[simp] theorem clearQueue_recvBuf (s : St K) : (clearQueue s).recvBuf = s.recvBuf := rfl
+@[simp] theorem clearQueue_errored (s : St K) : (clearQueue s).errored = s.errored := rfl
+@[simp] theorem clearQueue_crashed (s : St K) : (clearQueue s).crashed = s.crashed := rfl
+@[simp] theorem clearQueue_toChild (s : St K) : (clearQueue s).toChild = s.toChild := rfl
+@[simp] theorem clearQueue_routed (s : St K) : (clearQueue s).routed = s.routed := rfl
+@[simp] theorem clearQueue_up (s : St K) : (clearQueue s).up = s.up := rfl
+@[simp] theorem clearQueue_inbound (s : St K) : (clearQueue s).inbound = s.inbound := rfl
+@[simp] theorem clearQueue_accepted (s : St K) : (clearQueue s).accepted = s.accepted := rfl
+@[simp] theorem clearQueue_rxError (s : St K) : (clearQueue s).rxError = s.rxError := rfl
+
 /-! ### the two loops against the law -/
 
 theorem recvLoop_spec (L : Laws K) : ∀ (fuel : Nat) (c : K.σ) (acc : Bytes), K.inPending c < fuel →
@@ -171,18 +265,25 @@ theorem deliver_spec (child : Child) (s : St K) (e : CEv) (hd : direct s) :
   simp only [frame, Prod.mk.injEq] at hf
   refine ⟨hf.1, hf.2.2.2.1, hf.2.2.1, direct_handleCmds _ _ (by simpa [direct] using hd)⟩
 
+theorem queueing_false_of_direct (s : St K) (hd : direct s) : queueing s = false := by
+  unfold queueing
+  cases hst : s.st <;> simp [isEst]
+  exact hd hst
+
 theorem eventToChild_direct (child : Child) (s : St K) (e : CEv) (hd : direct s) (he : s.errored = false) :
     (eventToChild child s e).toChild = s.toChild ++ [e] ∧ (eventToChild child s e).errored = false
     ∧ (eventToChild child s e).queue = s.queue ∧ direct (eventToChild child s e) := by
-  have hb : (decide (s.st = .establishing) && !s.replyTo) = false := by
-    by_cases h1 : s.st = .establishing
-    · simp [h1, hd h1]
-    · simp [h1]
-  have hspec := deliver_spec child (addRouted s e) e (by simpa [direct, addRouted] using hd)
-  unfold eventToChild
-  rw [if_neg (by simp [he]), if_neg (by simp [hb])]
+  have hd' : direct (addRouted s e) := by simpa [direct] using hd
+  have hspec := deliver_spec child (addRouted s e) e hd'
+  unfold eventToChild etcCore
+  rw [if_neg (by simp [he]), queueing_false_of_direct _ hd']
+  simp only [Bool.false_eq_true, if_false]
   refine ⟨hspec.1, ?_, hspec.2.2.1, hspec.2.2.2⟩
   rw [hspec.2.1]; exact he
 
+theorem etcCore_direct (child : Child) (s : St K) (e : CEv) (hd : direct s) (he : s.errored = false) :
+    etcCore child s e = deliver child s e := by
+  unfold etcCore
+  rw [if_neg (by simp [he]), queueing_false_of_direct _ hd]; simp
 
 end MitmVerif.C14.Lemmas
